@@ -209,5 +209,134 @@ func C15SelfCheck() error {
 	if o.Err != "" || len(o.Stack) != 1 || o.Stack[0].Cmp(big.NewInt(0xab)) != 0 || len(o.Mem) != 64 || o.GasUsed != 3+3+3+6+3+3 {
 		return fmt.Errorf("interpreter self-check (mstore8/mload): err=%q stack=%v mem=%d gas=%d", o.Err, o.Stack, len(o.Mem), o.GasUsed)
 	}
+	return c15SelfCheckMem()
+}
+
+// c15SelfCheckMem: Keccak-256 on published digests, and hand-computed instances of the active
+// memory size / memory expansion gas rules for every memory-touching opcode of the subset.
+func c15SelfCheckMem() error {
+	seq := func(n int) []byte {
+		b := make([]byte, n)
+		for i := range b {
+			b[i] = byte(i)
+		}
+		return b
+	}
+	for _, v := range []struct {
+		in   []byte
+		want string
+	}{
+		// published: empty string, "abc", and the ubiquitous hash of one zero word (Solidity slot 0)
+		{nil, "c5d2460186f7233c927e7db2dcc703c0e500b653ca82273b7bfad8045d85a470"},
+		{[]byte("abc"), "4e03657aea45a94fc7d47ba826c8d667c0d1e6e33a64a036ec44f58fa12d6c45"},
+		{make([]byte, 32), "290decd9548b62a8d60345a988386fc84ba6bc95484008f6362f93160ef3e563"},
+		// around the 136-byte rate and multi-block (bytes 0,1,2,..; digests obtained once from
+		// golang.org/x/crypto/sha3 NewLegacyKeccak256, with which this implementation agreed on all
+		// lengths 0..699)
+		{seq(135), "cbdfd9dee5faad3818d6b06f95a219fd290b0e1706f6a82e5a595b9ce9faca62"},
+		{seq(136), "7ce759f1ab7f9ce437719970c26b0a66ff11fe3e38e17df89cf5d29c7d7f807e"},
+		{seq(137), "ac73d4fae68b8453f764007c1a20ce95994187861f0c3227a3a8e99a73a3b1db"},
+		{seq(300), "a679e749a6af300c36e7ff2255d220864eab27b382f9cfdc5aa4d13563ba36ff"},
+	} {
+		if got := C15Keccak256(v.in); fmt.Sprintf("%x", got) != v.want {
+			return fmt.Errorf("Keccak-256 of %d bytes: %x, published %s", len(v.in), got, v.want)
+		}
+	}
+	if w := C15MemWords(3, big.NewInt(1000000), big.NewInt(0)); w.Int64() != 3 {
+		return fmt.Errorf("M(3, 10^6, 0) = %v, want 3", w)
+	}
+	if w := C15MemWords(3, big.NewInt(95), big.NewInt(1)); w.Int64() != 3 {
+		return fmt.Errorf("M(3, 95, 1) = %v, want 3", w)
+	}
+	if w := C15MemWords(3, big.NewInt(95), big.NewInt(2)); w.Int64() != 4 {
+		return fmt.Errorf("M(3, 95, 2) = %v, want 4", w)
+	}
+	ff := make([]byte, 32)
+	for i := range ff {
+		ff[i] = 0xff
+	}
+	push32ff := append([]byte{0x7f}, ff...)
+	cat := func(parts ...[]byte) (r []byte) {
+		for _, p := range parts {
+			r = append(r, p...)
+		}
+		return
+	}
+	emptyHash := c15hex("c5d2460186f7233c927e7db2dcc703c0e500b653ca82273b7bfad8045d85a470")
+	type mv struct {
+		name  string
+		code  []byte
+		input []byte
+		gas   uint64 // expected gas used
+		stack []*big.Int
+		mem   int // expected active bytes
+		err   string
+		rev   bool
+		ret   int // expected length of the output
+	}
+	n := func(v ...int64) (r []*big.Int) {
+		for _, x := range v {
+			r = append(r, big.NewInt(x))
+		}
+		return
+	}
+	vecs := []mv{
+		// MSTORE8 touches ONE byte: offset 31 stays within the first word, offset 32 needs the second
+		{name: "mstore8@31", code: []byte{0x60, 1, 0x60, 31, 0x53, 0x59}, gas: 3 + 3 + (3 + 3) + 2, stack: n(32), mem: 32},
+		{name: "mstore8@32", code: []byte{0x60, 1, 0x60, 32, 0x53, 0x59}, gas: 3 + 3 + (3 + 6) + 2, stack: n(64), mem: 64},
+		{name: "mstore8@1", code: []byte{0x60, 1, 0x60, 1, 0x53, 0x59}, gas: 3 + 3 + (3 + 3) + 2, stack: n(32), mem: 32},
+		// MLOAD at 1 touches bytes 1..32: two words
+		{name: "mload@1", code: []byte{0x60, 1, 0x51, 0x59}, gas: 3 + (3 + 6) + 2, stack: n(0, 64), mem: 64},
+		// MSTORE at 0x7fe0: 1024 words, 3*1024 + 1024^2/512
+		{name: "mstore@0x7fe0", code: []byte{0x60, 0, 0x61, 0x7f, 0xe0, 0x52, 0x59}, gas: 3 + 3 + (3 + 3072 + 2048) + 2, stack: n(32768), mem: 32768},
+		// expansion is charged on the delta: 1 word (3), then up to 23 words (70 - 3)
+		{name: "delta", code: []byte{0x60, 0, 0x60, 0, 0x52, 0x60, 0, 0x61, 0x02, 0xc0, 0x52}, gas: 3 + 3 + (3 + 3) + 3 + 3 + (3 + 70 - 3), stack: nil, mem: 23 * 32},
+		// zero length never expands, whatever the offset: SHA3(2^256-1, 0) = keccak(""), 30 gas
+		{name: "sha3 zero length at 2^256-1", code: cat([]byte{0x60, 0}, push32ff, []byte{0x20, 0x59}), gas: 3 + 3 + 30 + 2, stack: []*big.Int{emptyHash, big.NewInt(0)}, mem: 0},
+		// SHA3 of bytes 31..63 (33 bytes): 2 words hashed, 2 words active
+		{name: "sha3 33 bytes at 31", code: []byte{0x60, 33, 0x60, 31, 0x20, 0x50, 0x59}, gas: 3 + 3 + (30 + 12 + 6) + 2 + 2, stack: n(64), mem: 64},
+		// CALLDATACOPY of 33 bytes to 31: 2 words copied, 2 words active
+		{name: "calldatacopy", code: []byte{0x60, 33, 0x60, 0, 0x60, 31, 0x37, 0x59}, input: []byte{1, 2, 3}, gas: 9 + (3 + 6 + 6) + 2, stack: n(64), mem: 64},
+		{name: "calldatacopy zero length", code: cat([]byte{0x60, 0}, push32ff, push32ff, []byte{0x37, 0x59}), input: []byte{1, 2, 3}, gas: 9 + 3 + 2, stack: n(0), mem: 0},
+		{name: "codecopy 1 byte at 64", code: []byte{0x60, 1, 0x60, 0, 0x60, 64, 0x39, 0x59}, gas: 9 + (3 + 3 + 9) + 2, stack: n(96), mem: 96},
+		{name: "returndatacopy empty", code: cat([]byte{0x60, 0, 0x60, 0}, push32ff, []byte{0x3e, 0x59}), gas: 9 + 3 + 2, stack: n(0), mem: 0},
+		{name: "returndatacopy out of bounds", code: []byte{0x60, 0, 0x60, 1, 0x60, 0, 0x3e}, gas: 1000, err: "returndata-out-of-bounds"},
+		// LOG1 with 5 data bytes at 0: 375 + 375 + 8*5 + 3
+		{name: "log1", code: []byte{0x60, 9, 0x60, 5, 0x60, 0, 0xa1, 0x59}, gas: 9 + (750 + 40 + 3) + 2, stack: n(32), mem: 32},
+		{name: "log0 zero length huge offset", code: cat([]byte{0x60, 0}, push32ff, []byte{0xa0, 0x59}), gas: 6 + 375 + 2, stack: n(0), mem: 0},
+		// RETURN / REVERT: zero length at a huge offset costs nothing; 1 byte at 32 costs 2 words
+		{name: "return zero length", code: cat([]byte{0x60, 0}, push32ff, []byte{0xf3}), gas: 6, mem: 0},
+		{name: "return 1 byte at 32", code: []byte{0x60, 1, 0x60, 32, 0xf3}, gas: 6 + 6, mem: 64, ret: 1},
+		{name: "revert 32 bytes at 1", code: []byte{0x60, 32, 0x60, 1, 0xfd}, gas: 6 + 6, mem: 64, ret: 32, rev: true},
+		// unaffordable
+		{name: "mstore8 at 2^256-1", code: cat([]byte{0x60, 1}, push32ff, []byte{0x53}), gas: 1000, err: "out-of-gas"},
+		// GAS: what is left after paying for GAS itself
+		{name: "gas", code: []byte{0x5a}, gas: 2, stack: n(998), mem: 0},
+	}
+	for _, v := range vecs {
+		o := C15ExecIn(v.code, v.input, 1000, nil)
+		if v.name == "mstore@0x7fe0" {
+			o = C15ExecIn(v.code, v.input, 10000, nil)
+		}
+		bad := o.Err != v.err || o.GasUsed != v.gas || o.Reverted != v.rev || len(o.Ret) != v.ret
+		if v.err == "" {
+			bad = bad || len(o.Mem) != v.mem || len(o.Stack) != len(v.stack)
+			if !bad {
+				for i := range v.stack {
+					bad = bad || o.Stack[i].Cmp(v.stack[i]) != 0
+				}
+			}
+		}
+		if bad {
+			return fmt.Errorf("memory self-check %q: err=%q gas=%d reverted=%v ret=%d mem=%d stack=%v", v.name, o.Err, o.GasUsed, o.Reverted, len(o.Ret), len(o.Mem), o.Stack)
+		}
+	}
+	// contents: CALLDATACOPY pads with zeros, CODECOPY copies the code, LOG data and topics
+	o := C15ExecIn([]byte{0x60, 4, 0x60, 1, 0x60, 30, 0x37, 0x60, 7, 0x60, 6, 0x60, 2, 0x60, 30, 0xa2}, []byte{0xaa, 0xbb, 0xcc}, 10000, nil)
+	if o.Err != "" || len(o.Mem) != 64 || o.Mem[30] != 0xbb || o.Mem[31] != 0xcc || o.Mem[32] != 0 || o.Mem[33] != 0 ||
+		len(o.Logs) != 1 || len(o.Logs[0].Topics) != 2 || o.Logs[0].Topics[0][31] != 6 || o.Logs[0].Topics[1][31] != 7 ||
+		len(o.Logs[0].Data) != 2 || o.Logs[0].Data[0] != 0xbb || o.Logs[0].Data[1] != 0xcc {
+		return fmt.Errorf("memory self-check (calldatacopy/log contents): %+v", o)
+	}
 	return nil
 }
